@@ -5,7 +5,12 @@ Model   coq/Scope/Ast.v        uniform tree (kinds = the node classes activity.p
                                surrogate scopes, isolated_names, comprehension state, args visited twice, ...)
         coq/Scope/Binders.v    S: CPython's binding rule + evaluation rule (facts of a block)
         coq/Generated/C08_gen.v  G: the three measured behaviours of visit_arg (tools/translate/c08_quirks.py)
-Theorems (coq/Properties/C08): see the files.
+Theorems (coq/Properties/C08):
+   activity_matches_binders (+ _now for the measured quirks)  full: bound-globals-nonlocals / globals / nonlocals /
+        params of every def / lambda = CPython's rule, modulo comprehension targets, except names (+ nested params
+        while the known finding activity-nested-params-leak is present)
+   stmt_reads_writes_complete_partial    reads / writes / deletes of simple statements are in read / modified / deleted
+   activity_param_leak_refuted, activity_walrus_in_comprehension_refuted   witnesses of the two known findings
 Ties, checked on every run on generated programs:
    * Activity.records(tree) = the Scope objects activity.resolve put on the real tree (SCOPE, COND/BODY/ORELSE/
      ITERATE/ARGS_AND_BODY scopes; read, modified, bound, deleted, globals, nonlocals, params, isolated_names)
